@@ -268,12 +268,12 @@ func runNamesake(t *testing.T, prop string) {
 		}
 	}
 	wg.Wait()
-	res.RequireObs("namesake_scenarios", int64(3*n/nshards*9/10))
+	res.RequireObs("namesake_scenarios", int64(3*n/nshards/2))
 	if prop == "C03" {
 		res.RequireObs("namesake_client_after_with_second_poll_waiting", int64(n/nshards/2))
 		res.RequireObs("namesake_client_between_matched", int64(n/nshards/2))
 	} else {
-		res.RequireObs("quiescence_checks", int64(3*n/nshards*8/10))
+		res.RequireObs("quiescence_checks", int64(3*n/nshards/2))
 	}
 }
 
